@@ -196,7 +196,7 @@ func GenMW(t *rapid.T) MWCase {
 		}
 		c.HasDocument = rapid.Bool().Draw(t, "hasdoc")
 		if c.HasDocument {
-			c.Document = rapid.SampledFrom([]string{"", "swagger.json", "openapi.json", "doc", "spec/v1.json", "/abs.json", "d.x", "a b.json", "../up.json", "doc.json/"}).Draw(t, "doc")
+			c.Document = rapid.SampledFrom([]string{"", "swagger.json", "openapi.json", "doc", "spec/v1.json", "/abs.json", "d.x", "a b.json", "../up.json", "doc.json/", "spec.txt", "api.html", "petstore.xml", "swagger.js", "openapi.yaml"}).Draw(t, "doc")
 		}
 		c.SpecBytes = kit.BStr(rapid.SampledFrom([]string{`{"swagger":"2.0"}`, "", "not json <html>", "{\n  \"a\": 1\n}\n", "\xff\xfe\x00binary", `{"title":"</script>"}`}).Draw(t, "specbytes"))
 	} else {
@@ -240,7 +240,8 @@ var (
 	apiSpecURLs = []string{"", "", "/swagger.json", "/dir/sub/doc.json", "https://h.test/dir/doc.json", "http://h.test:8080/spec/openapi.json?x=1", "/api/swagger.json",
 		"/api/docs.json", "/api/v1/docs/swagger.json", `https://h.test/dir/doc.json?x=1&y=<2>`, `/zqS"b.json`, `/zqS'y`, `/zqS<b>.json`, "/a//b.json", "/a/../b.json",
 		"/docs/swagger.json", "/docs", "/api/docs", "swagger.json", "dir/doc.json", "/ü.json", "/doc.json?q='\"", "/zqS&amp;.json", "/docs.json",
-		"/specs/petstore.json#tag/pets", "https://h.test/specs/petstore.json#", "//h.test:8080/specs/petstore.json", "/dir/doc.json?x=1#frag"}
+		"/specs/petstore.json#tag/pets", "https://h.test/specs/petstore.json#", "//h.test:8080/specs/petstore.json", "/dir/doc.json?x=1#frag",
+		"/specs/spec.txt", "/specs/api.html", "/swagger.js", "https://h.test/dir/petstore.xml"} // names whose extension means another media type to a file server (r6)
 )
 
 var reTemplate = regexp.MustCompile(`^(/[a-z0-9._~-]+)+$`)
